@@ -252,7 +252,7 @@ class Ctx:
         os.makedirs(d, exist_ok=True)
         return d
 
-    def run_cli(self, args, cwd=None, timeout=60, env=None, stdout_to=None):
+    def run_cli(self, args, cwd=None, timeout=60, env=None, stdout_to=None, stdout_closed=False):
         """the REAL binary built from /repo's current tree. Returns (rc, stdout, stderr, timed_out).
         env: added to the default environment; a value of None REMOVES the variable.  stdout_to: a file path that
         receives stdout (the process then writes to a regular file instead of a pipe)."""
@@ -264,6 +264,15 @@ class Ctx:
                 else:
                     e[k] = v
         try:
+            if stdout_closed:
+                # stdout is a pipe nobody reads (`| head`, a pager that was quit): every write fails with EPIPE
+                rd, wr = os.pipe()
+                os.close(rd)
+                try:
+                    p = subprocess.run([self.cli] + args, cwd=cwd, stdout=wr, stderr=subprocess.PIPE, text=True, timeout=timeout, env=e)
+                finally:
+                    os.close(wr)
+                return p.returncode, "", p.stderr, False
             if stdout_to:
                 with open(stdout_to, "w") as fh:
                     p = subprocess.run([self.cli] + args, cwd=cwd, stdout=fh, stderr=subprocess.PIPE, text=True, timeout=timeout, env=e)
